@@ -62,7 +62,8 @@ def assemble(g: Dict[str, Any], parts: List[Part], rule: str = "", explanation: 
     known: Dict[str, Callable[[Failure], bool]] = {}
     for p in parts:
         for fid, clf in p.known.items():
-            known[fid] = _route_clf(p.name, clf)
+            r = _route_clf(p.name, clf)
+            known[fid] = _or_clf(known[fid], r) if fid in known else r  # several parts may describe one finding
 
     def run(ctx: Ctx):
         import torch
@@ -86,6 +87,10 @@ def assemble(g: Dict[str, Any], parts: List[Part], rule: str = "", explanation: 
 
     g.update(THEOREMS=theorems, LEAN_MODULES=modules, KNOWN=known, RULE=rule, EXPLANATION=explanation,
              ASSUMPTIONS=list(assumptions), run=run, escalate=run, replay=replay)
+
+
+def _or_clf(a, b):
+    return lambda fl: a(fl) or b(fl)
 
 
 def _route_clf(tag, clf):
